@@ -132,7 +132,10 @@ impl<'de, R: io::Read + 'de> Read<'de> for IoReader<R> {
         V: serde::de::Visitor<'de>,
     {
         let bytes = read_primitive_bytes_or_else(self, read_described_bytes)?;
-        visitor.visit_bytes(&bytes)
+        // The bytes are owned: hand them over as such, as the slice reader does. (A
+        // visitor that only takes borrowed bytes still gets them through serde's
+        // default `visit_byte_buf`.)
+        visitor.visit_byte_buf(bytes)
     }
 
     fn forward_read_str<V>(&mut self, len: usize, visitor: V) -> Result<V::Value, Error>
